@@ -48,6 +48,47 @@ type r1ctx struct {
 	p     *core.Prog
 	S     map[*ssa.Function]sinkClass
 	scope map[string]bool // package names in scope
+	// mustFail: writer-class functions that return a non-nil error on every path when every write fails
+	// (every path performs at least one write, directly or through a must-fail callee, and returns such an
+	// error). A sink function without this guarantee (an event that writes nothing on some path - a finish
+	// event of a container whose length was announced) may return nil although the writer is failing.
+	mustFail map[*ssa.Function]bool
+}
+
+// callMustFail: with a writer that fails every write, this obligation call certainly returns a non-nil error.
+func (c *r1ctx) callMustFail(site ssa.CallInstruction) bool {
+	if c.rootClass(site) == clsWriter {
+		return true
+	}
+	if sc := site.Common().StaticCallee(); sc != nil {
+		return c.mustFail[sc]
+	}
+	return false
+}
+
+// computeMustFail: least fixpoint, starting from "no function is known to fail".
+func (c *r1ctx) computeMustFail() {
+	c.mustFail = map[*ssa.Function]bool{}
+	var cand []*ssa.Function
+	for _, f := range c.p.ModFuncs() {
+		if c.S[f] == clsWriter && f.Blocks != nil && errResultIndex(f.Signature) >= 0 {
+			cand = append(cand, f)
+		}
+	}
+	for changed := true; changed; {
+		changed = false
+		for _, f := range cand {
+			if c.mustFail[f] {
+				continue
+			}
+			k := &r1client{c: c, fn: f, num: newNumbering(), lenient: true, errIdx: errResultIndex(f.Signature)}
+			_, capped := WalkPaths[r1state](k, f.Blocks[0], 0, r1state{failing: true}, 400000, nil)
+			if !capped && len(k.bad) == 0 {
+				c.mustFail[f] = true
+				changed = true
+			}
+		}
+	}
 }
 
 func errResultIndex(sig *types.Signature) int {
@@ -334,11 +375,19 @@ func (k *r1client) Instr(s r1state, in ssa.Instruction) (r1state, bool, []r1stat
 		if k.lenient {
 			ev, bound := errValueOf(x)
 			if s.failing {
+				var forks []r1state
+				if !k.c.callMustFail(x) && bound {
+					// the callee has a path that writes nothing: it may report success although the writer fails
+					okState := s
+					okState.n = okState.n.with(k.num.id(ev))
+					okState.t = okState.t.without(k.num.id(ev))
+					forks = []r1state{okState}
+				}
 				if bound {
 					s.t = s.t.with(k.num.id(ev))
 					s.n = s.n.without(k.num.id(ev))
 				}
-				return s, true, nil
+				return s, true, forks
 			}
 			// the writer has not failed yet: this call either succeeds ...
 			okState := s
@@ -519,7 +568,9 @@ func R1(p *core.Prog) *core.Result {
 	r := core.NewResult("R1", "every error entering the library from an io.Writer, a Visitor event, a Folder or a fold/user function value is bound, returned on every path on which it is non-nil, and (visitor class) followed by no further event; (writer class) every event that wrote anything reports a failure when the writer keeps failing")
 	c := &r1ctx{p: p, scope: map[string]bool{"structform": true, "json": true, "cborl": true, "ubjson": true, "gotype": true, "visitors": true}}
 	c.computeS()
+	c.computeMustFail()
 	r.Stats["sink_set_functions"] = len(c.S)
+	r.Stats["must_fail_functions"] = len(c.mustFail)
 	deferMask(p, r, c)
 
 	perPkg := map[string]int{}
